@@ -5,6 +5,7 @@ go 1.21
 require (
 	github.com/labstack/echo/v4 v4.11.4
 	github.com/rs/zerolog v1.28.0
+	google.golang.org/grpc v1.46.2
 	k3l.io/go-eigentrust v0.0.0
 )
 
@@ -32,6 +33,7 @@ require (
 	github.com/getkin/kin-openapi v0.110.0 // indirect
 	github.com/go-openapi/jsonpointer v0.19.5 // indirect
 	github.com/go-openapi/swag v0.21.1 // indirect
+	github.com/golang/protobuf v1.5.2 // indirect
 	github.com/google/uuid v1.5.0 // indirect
 	github.com/invopop/yaml v0.1.0 // indirect
 	github.com/jmespath/go-jmespath v0.4.0 // indirect
@@ -48,6 +50,8 @@ require (
 	golang.org/x/net v0.23.0 // indirect
 	golang.org/x/sys v0.18.0 // indirect
 	golang.org/x/text v0.14.0 // indirect
+	google.golang.org/genproto v0.0.0-20220519153652-3a47de7e79bd // indirect
+	google.golang.org/protobuf v1.33.0 // indirect
 	gopkg.in/yaml.v2 v2.4.0 // indirect
 	gopkg.in/yaml.v3 v3.0.1 // indirect
 )
